@@ -72,6 +72,7 @@ type stream struct {
 	streamEndNotSupportedData    *streamEndNotSupportedData
 	tracerComponent              *tracing.TracerComponent
 	rebalanceLock                sync.Mutex
+	rebalanceStateLock           sync.Mutex
 	activeStreams                atomic.Int32
 	streamFinishedWithCloseCh    bool
 	streamFinishedWithEndEventCh bool
@@ -278,28 +279,36 @@ func (s *stream) IsOpen() bool {
 }
 
 func (s *stream) Rebalance() {
-	if s.balancing && s.rebalanceTimer != nil {
-		// Is rebalance timer triggered already
-		if s.rebalanceTimer.Stop() {
-			s.rebalanceTimer.Reset(s.config.Dcp.Group.Membership.RebalanceDelay)
-			logger.Log.Info("latest rebalance time is resetted")
-		} else {
-			s.rebalanceTimer = time.AfterFunc(s.config.Dcp.Group.Membership.RebalanceDelay, s.Rebalance)
-			logger.Log.Info("latest rebalance time is reassigned")
+	s.rebalanceStateLock.Lock()
+	if s.balancing {
+		// a rebalance is already in progress: only postpone its reopen
+		if s.rebalanceTimer != nil {
+			// Is rebalance timer triggered already
+			if s.rebalanceTimer.Stop() {
+				s.rebalanceTimer.Reset(s.config.Dcp.Group.Membership.RebalanceDelay)
+				logger.Log.Info("latest rebalance time is resetted")
+			} else {
+				s.rebalanceTimer = time.AfterFunc(s.config.Dcp.Group.Membership.RebalanceDelay, s.Rebalance)
+				logger.Log.Info("latest rebalance time is reassigned")
+			}
 		}
+		s.rebalanceStateLock.Unlock()
 		return
 	}
+	s.balancing = true
+	s.rebalanceStateLock.Unlock()
+
 	logger.Log.Info("rebalance starting")
 	s.rebalanceLock.Lock()
 
 	s.eventHandler.BeforeRebalanceStart()
 
-	if !s.balancing {
-		s.balancing = true
-		s.Close(false)
-	}
+	s.Close(false)
 
 	s.eventHandler.AfterRebalanceStart()
+
+	s.rebalanceStateLock.Lock()
+	defer s.rebalanceStateLock.Unlock()
 
 	if s.config.Dcp.Group.Membership.Type == membership.DynamicMembershipType {
 		s.rebalanceTimer = time.AfterFunc(0, s.rebalance)
@@ -320,7 +329,9 @@ func (s *stream) rebalance() {
 	s.metric.Rebalance++
 
 	logger.Log.Info("rebalance is finished")
+	s.rebalanceStateLock.Lock()
 	s.balancing = false
+	s.rebalanceStateLock.Unlock()
 	s.eventHandler.AfterRebalanceEnd()
 }
 
